@@ -404,6 +404,13 @@ pub fn search(tier: &str, seed: u64, s: &mut Search) {
     for (svg, class) in [(WIDE_GROUP, "witness"), (CLAMPED_ARITH, "witness"), (TWO_FILTERS_LIGHT, "witness"), (HUGE_PATTERN, "witness")] {
         run(&mut wk, s, class, svg, 20, 20, tiny_skia::Transform::identity());
     }
+    // feTurbulence with every boundary seed (the generator is seeded with |seed|, reduced)
+    for sd in ["-2147483648", "-2147483647", "2147483647", "2147483646", "-1", "0", "4294967296", "-1e300", "1e300", "0.5"] {
+        for ty in ["turbulence", "fractalNoise"] {
+            let svg = format!(r##"<svg xmlns="http://www.w3.org/2000/svg" width="20" height="20"><filter id="f"><feTurbulence type="{ty}" baseFrequency="0.05" numOctaves="2" seed="{sd}" stitchTiles="stitch"/></filter><rect width="20" height="20" filter="url(#f)"/></svg>"##);
+            run(&mut wk, s, "turbulence-seed", &svg, 20, 20, tiny_skia::Transform::identity());
+        }
+    }
     // generated documents × canvases × transforms
     let n = (if tier == "thorough" { 2500 } else { 220 }) * mult;
     for i in 0..n {
@@ -474,6 +481,75 @@ pub fn search(tier: &str, seed: u64, s: &mut Search) {
         let scale = *rng.pick(&[1.0f32, 1.0, 0.5, 0.1, 0.05, 0.025, 0.01, 3.0]);
         let side = ((100.0 * scale).ceil() as u32).clamp(1, 300);
         run(&mut wk, s, "kernel-vs-region", &svg, side, side, tiny_skia::Transform::from_scale(scale, scale));
+    }
+    // SVG images nested in SVG images (data URLs), each level with an isolated group around content far larger than
+    // any canvas: the layers of an inner level must stay bounded by the outermost canvas, not grow per level
+    for depth in 1..=5usize {
+        for variant in 0..(if tier == "thorough" { 6 } else { 2 }) {
+            fn level(depth: usize, variant: usize, size: u32) -> String {
+                let image = if depth > 0 {
+                    format!(r#"<image x="0" y="0" width="{size}" height="{size}" xlink:href="data:image/svg+xml;base64,{}"/>"#, crate::c17::b64(level(depth - 1, variant, size).as_bytes()))
+                } else {
+                    String::new()
+                };
+                let effect = [r#" opacity="0.5""#, r#" filter="url(#f)""#, r#" mask="url(#k)""#][variant % 3];
+                format!(
+                    r##"<svg xmlns="http://www.w3.org/2000/svg" xmlns:xlink="http://www.w3.org/1999/xlink" width="{size}" height="{size}" viewBox="0 0 {size} {size}"><defs><filter id="f" filterUnits="userSpaceOnUse" x="-1e6" y="-1e6" width="2e6" height="2e6"><feOffset dx="1"/></filter><mask id="k" maskUnits="userSpaceOnUse" x="-1e6" y="-1e6" width="2e6" height="2e6"><rect x="-1e6" y="-1e6" width="2e6" height="2e6" fill="white"/></mask></defs><g{effect}><rect x="-1000000" y="-1000000" width="2000000" height="2000000" fill="green"/>{image}</g></svg>"##
+                )
+            }
+            let size = if variant < 3 { 16 } else { 40 };
+            let svg = level(depth, variant, size);
+            let job = render_job(svg.as_bytes(), size, size, tiny_skia::Transform::identity());
+            let out = wk.run(&job, timeout);
+            let key = format!("{} levels of nested SVG images, variant {}, on {}x{}: {}", depth, variant, size, size, svg);
+            s.case("nested-svg-image", &key, matches!(&out, Outcome::Answer(a) if a.starts_with("ok")));
+            if !matches!(out, Outcome::Answer(_)) {
+                wk = Worker::spawn();
+            }
+            if let Some((sig, what)) = classify(&out) {
+                s.finding(&sig, &format!("{} ({} levels of nested SVG images)", what, depth), &key);
+            }
+        }
+    }
+    // node export: one node of the tree rendered alone (resvg::render_node) onto a canvas whose size has nothing to
+    // do with the node's — the canvas, not the node's own box, bounds the surfaces
+    let nn = (if tier == "thorough" { 600 } else { 60 }) * mult;
+    for i in 0..nn {
+        let big = *rng.pick(&["10", "300", "5000", "100000", "5e8", "3e9"]);
+        let (bw, bh) = if rng.chance(1, 2) { (big, "40") } else { ("40", big) };
+        let effect = match (i / 2) % 6 {
+            0 => "",
+            1 => r#" opacity="0.5""#,
+            2 => r#" filter="url(#f)""#,
+            3 => r#" clip-path="url(#c)""#,
+            4 => r#" mask="url(#k)""#,
+            _ => r#" style="mix-blend-mode:multiply""#,
+        };
+        let inner = if i % 2 == 0 {
+            format!(r#"<rect id="n" x="5" y="5" width="{bw}" height="{bh}" fill="teal" stroke="black" stroke-width="3"{effect}/>"#)
+        } else {
+            format!(r#"<g id="n"{effect}><rect x="5" y="5" width="{bw}" height="{bh}" fill="teal"/><g opacity="0.7"><circle cx="30" cy="30" r="20" fill="gold"/><rect width="{bw}" height="{bh}" fill="none" stroke="red" stroke-width="2"/></g></g>"#)
+        };
+        let svg = format!(
+            r##"<svg xmlns="http://www.w3.org/2000/svg" width="100" height="100"><defs><filter id="f"><feGaussianBlur stdDeviation="2"/></filter><clipPath id="c"><circle cx="40" cy="40" r="1e6"/><rect width="30" height="30"/></clipPath><mask id="k"><rect width="1e7" height="1e7" fill="white"/></mask></defs>{inner}</svg>"##
+        );
+        let (cw, ch) = match rng.below(4) {
+            0 => (100, 100),
+            1 => (1, 512),
+            2 => (16, 16),
+            _ => rand_canvas(&mut rng),
+        };
+        let ts = if rng.chance(1, 2) { tiny_skia::Transform::identity() } else { rand_ts(&mut rng) };
+        let job = format!("{} n", render_job(svg.as_bytes(), cw, ch, ts));
+        let out = wk.run(&job, timeout);
+        let key = format!("render_node #n onto {}x{} ts={:?} {}", cw, ch, (ts.sx, ts.ky, ts.kx, ts.sy, ts.tx, ts.ty), svg);
+        s.case("node-export", &key, matches!(&out, Outcome::Answer(a) if a.starts_with("ok")));
+        if !matches!(out, Outcome::Answer(_)) {
+            wk = Worker::spawn();
+        }
+        if let Some((sig, what)) = classify(&out) {
+            s.finding(&sig, &format!("{} (node export)", what), &key);
+        }
     }
     // corpus files with adversarial magnitudes spliced into numeric attributes
     // (thorough tier, or when a proof/correspondence obligation broke and the search is steered)
